@@ -125,7 +125,11 @@ theorem rstep_request_armed (I : Nat) (d : RDeb) (a : RAct) (ha : a = .debounce 
     · simp [RDeb.armed]
 
 theorem gstep_d (I : Nat) (g : RGhost) (a : RAct) : (gstep I g a).d = rstep I g.d a := by
-  cases a <;> rfl
+  cases a <;> simp only [gstep, gstepWith, rstep] <;> split <;> rfl
+
+theorem gstep_reqs (I : Nat) (g : RGhost) (a : RAct) :
+    (gstep I g a).reqs = if a = .debounce ∨ a = .refreshNow then g.reqs ++ [g.d.refreshes] else g.reqs := by
+  cases a <;> simp [gstep, gstepWith] <;> split <;> rfl
 
 theorem gstep_served (I : Nat) (g : RGhost) (a : RAct) (hs : Served g) : Served (gstep I g a) := by
   obtain ⟨h1, h2⟩ := hs
@@ -141,13 +145,15 @@ theorem gstep_served (I : Nat) (g : RGhost) (a : RAct) (hs : Served g) : Served 
         · right; exact ⟨by omega, ha'⟩
     by_cases hreq : a = .debounce ∨ a = .refreshNow
     · have hr' : r ∈ g.reqs ∨ r = g.d.refreshes := by
-        rcases hreq with rfl | rfl <;> simpa [gstep, gstepWith] using hr
+        rw [gstep_reqs, if_pos hreq] at hr
+        simpa using hr
       rcases hr' with hr' | rfl
       · exact hold r hr'
       · have := rstep_request_armed I g.d a hreq h2
         right; exact ⟨this.1.symm, this.2⟩
     · have hr' : r ∈ g.reqs := by
-        cases a <;> first | (exact absurd (Or.inl rfl) hreq) | (exact absurd (Or.inr rfl) hreq) | (simpa [gstep, gstepWith] using hr)
+        rw [gstep_reqs, if_neg hreq] at hr
+        exact hr
       exact hold r hr'
   · rw [gstep_d]; exact rstep_bc I g.d a h2
 
@@ -328,5 +334,223 @@ theorem drun_served (I : Nat) (ops : List DOp) : ∀ (g : RGhost), Served g → 
   induction ops with
   | nil => intro g h; exact h
   | cons a t ih => intro g h; exact ih _ (dstep_served I g a h)
+
+/-! ### the callers of refreshNow(): answered by a refresh that started after their call -/
+
+/-- invariant of every schedule about the listeners: positions are valid; the listeners the running refresh took
+made their call before it started; so did every answered listener w.r.t. the refresh that answered it; waiting
+listeners sit on a broadcaster; taken listeners belong to a running refresh -/
+def Heard (g : RGhost) : Prop :=
+  (∀ i ∈ g.waiting, i < g.reqs.length) ∧
+  (∀ i ∈ g.cur, i < g.reqs.length ∧ g.reqs.getD i 0 < g.d.refreshes) ∧
+  (∀ e ∈ g.answers, e.1 < g.reqs.length ∧ g.reqs.getD e.1 0 < e.2) ∧
+  (g.waiting ≠ [] → g.d.bc = true) ∧
+  (g.cur ≠ [] → g.d.phase = .running)
+
+theorem heard_init : Heard {} := by
+  refine ⟨?_, ?_, ?_, ?_, ?_⟩ <;> simp
+
+theorem reqs_le (g : RGhost) (hs : Served g) (i : Nat) : g.reqs.getD i 0 ≤ g.d.refreshes := by
+  by_cases hi : i < g.reqs.length
+  · have hm : g.reqs.getD i 0 ∈ g.reqs := by
+      rw [List.getD_eq_getElem?_getD, List.getElem?_eq_getElem hi]
+      exact List.getElem_mem hi
+    rcases hs.1 _ hm with h | ⟨h, _⟩ <;> omega
+  · rw [List.getD_eq_getElem?_getD, List.getElem?_eq_none (by omega)]
+    simp
+
+theorem getD_append_lt (l l' : List Nat) (i : Nat) (h : i < l.length) : (l ++ l').getD i 0 = l.getD i 0 := by
+  rw [List.getD_eq_getElem?_getD, List.getD_eq_getElem?_getD, List.getElem?_append_left h]
+
+theorem rstep_bc_keep (I : Nat) (d : RDeb) (a : RAct) (ha : a ≠ .start) (h : d.bc = true) : (rstep I d a).bc = true := by
+  obtain ⟨now, deadline, fired, nowPending, bc, phase, refreshes⟩ := d
+  simp only at h
+  subst h
+  cases a with
+  | start => exact absurd rfl ha
+  | tick =>
+    simp only [rstep, rstepWith]
+    cases deadline with
+    | none => rfl
+    | some dl => dsimp only; split <;> rfl
+  | done => simp only [rstep, rstepWith, id]; split <;> rfl
+  | _ => simp only [rstep, rstepWith] <;> (try split) <;> rfl
+
+theorem rstep_running_keep (I : Nat) (d : RDeb) (a : RAct) (ha : a ≠ .done) (h : d.phase = .running) :
+    (rstep I d a).phase = .running := by
+  obtain ⟨now, deadline, fired, nowPending, bc, phase, refreshes⟩ := d
+  simp only at h
+  subst h
+  cases a with
+  | done => exact absurd rfl ha
+  | tick =>
+    simp only [rstep, rstepWith]
+    cases deadline with
+    | none => rfl
+    | some dl => dsimp only; split <;> rfl
+  | refreshNow => simp only [rstep, rstepWith]; split <;> rfl
+  | _ => simp [rstep, rstepWith]
+
+theorem rstep_same_refreshes (I : Nat) (d : RDeb) (a : RAct) (ha : a ≠ .start) : (rstep I d a).refreshes = d.refreshes := by
+  cases a with
+  | start => exact absurd rfl ha
+  | tick =>
+    simp only [rstep, rstepWith]
+    cases d.deadline with
+    | none => rfl
+    | some dl => dsimp only; split <;> rfl
+  | done => simp only [rstep, rstepWith, id]; split <;> rfl
+  | _ => simp only [rstep, rstepWith] <;> (try split) <;> rfl
+
+/-- steps that touch neither the bookkeeping of requests nor that of listeners -/
+theorem heard_plain (I : Nat) (g : RGhost) (a : RAct) (hh : Heard g) (ha : a ≠ .start) (hd : a ≠ .done)
+    (g' : RGhost) (hg : g' = { g with d := rstep I g.d a }) : Heard g' := by
+  subst hg
+  obtain ⟨h1, h2, h3, h4, h5⟩ := hh
+  refine ⟨h1, ?_, h3, ?_, ?_⟩
+  · intro i hi
+    have := h2 i hi
+    simp only [rstep_same_refreshes I g.d a ha]
+    exact this
+  · intro hw; exact rstep_bc_keep I g.d a ha (h4 hw)
+  · intro hc; exact rstep_running_keep I g.d a hd (h5 hc)
+
+theorem gstep_heard (I : Nat) (g : RGhost) (a : RAct) (hs : Served g) (hh : Heard g) : Heard (gstep I g a) := by
+  cases a with
+  | tick => exact heard_plain I g .tick hh (by decide) (by decide) _ rfl
+  | wakeT => exact heard_plain I g .wakeT hh (by decide) (by decide) _ rfl
+  | wakeN => exact heard_plain I g .wakeN hh (by decide) (by decide) _ rfl
+  | debounce =>
+    obtain ⟨h1, h2, h3, h4, h5⟩ := hh
+    simp only [gstep, gstepWith]
+    refine ⟨?_, ?_, ?_, ?_, ?_⟩
+    · intro i hi; have := h1 i hi; simp only [List.length_append, List.length_cons, List.length_nil]; omega
+    · intro i hi
+      obtain ⟨hl, hr⟩ := h2 i hi
+      simp only [List.length_append, List.length_cons, List.length_nil]
+      rw [getD_append_lt _ _ _ hl]
+      exact ⟨by omega, by simpa [rstepWith] using hr⟩
+    · intro e he
+      obtain ⟨hl, hr⟩ := h3 e he
+      simp only [List.length_append, List.length_cons, List.length_nil]
+      rw [getD_append_lt _ _ _ hl]
+      exact ⟨by omega, hr⟩
+    · intro hw; simpa [rstepWith] using h4 hw
+    · intro hc; simpa [rstepWith] using h5 hc
+  | refreshNow =>
+    obtain ⟨h1, h2, h3, h4, h5⟩ := hh
+    simp only [gstep, gstepWith]
+    refine ⟨?_, ?_, ?_, ?_, ?_⟩
+    · intro i hi
+      simp only [List.length_append, List.length_cons, List.length_nil]
+      rcases List.mem_append.1 hi with hi | hi
+      · have := h1 i hi; omega
+      · simp only [List.mem_singleton] at hi; omega
+    · intro i hi
+      obtain ⟨hl, hr⟩ := h2 i hi
+      simp only [List.length_append, List.length_cons, List.length_nil]
+      rw [getD_append_lt _ _ _ hl]
+      refine ⟨by omega, ?_⟩
+      have := rstep_same_refreshes I g.d .refreshNow (by decide)
+      simp only [rstep] at this
+      rw [this]; exact hr
+    · intro e he
+      obtain ⟨hl, hr⟩ := h3 e he
+      simp only [List.length_append, List.length_cons, List.length_nil]
+      rw [getD_append_lt _ _ _ hl]
+      exact ⟨by omega, hr⟩
+    · intro _
+      simp only [rstepWith]
+      split
+      · assumption
+      · rfl
+    · intro hc
+      have := rstep_running_keep I g.d .refreshNow (by decide) (h5 hc)
+      simpa [rstep] using this
+  | start =>
+    obtain ⟨h1, h2, h3, h4, h5⟩ := hh
+    simp only [gstep, gstepWith]
+    by_cases hw : g.d.phase = .woken
+    · simp only [hw, ↓reduceIte]
+      refine ⟨?_, ?_, h3, ?_, ?_⟩
+      · intro i hi; simp at hi
+      · intro i hi
+        refine ⟨h1 i hi, ?_⟩
+        have := reqs_le g hs i
+        simp only [rstepWith, hw, ↓reduceIte]
+        omega
+      · intro h; exact absurd rfl h
+      · intro _; simp [rstepWith, hw]
+    · simp only [hw, ↓reduceIte]
+      have e : rstepWith id I g.d .start = g.d := by simp [rstepWith, hw]
+      rw [e]
+      exact ⟨h1, h2, h3, h4, h5⟩
+  | done =>
+    obtain ⟨h1, h2, h3, h4, h5⟩ := hh
+    simp only [gstep, gstepWith]
+    by_cases hr : g.d.phase = .running
+    · simp only [hr, ↓reduceIte]
+      refine ⟨h1, ?_, ?_, ?_, ?_⟩
+      · intro i hi; simp at hi
+      · intro e he
+        rcases List.mem_append.1 he with he | he
+        · exact h3 e he
+        · obtain ⟨i, hi, rfl⟩ := List.mem_map.1 he
+          exact h2 i hi
+      · intro hw
+        have := rstep_bc_keep I g.d .done (by decide) (h4 hw)
+        simpa [rstep] using this
+      · intro h; exact absurd rfl h
+    · simp only [hr, ↓reduceIte]
+      have e : rstepWith id I g.d .done = g.d := by simp [rstepWith, hr]
+      rw [e]
+      exact ⟨h1, h2, h3, h4, h5⟩
+
+theorem grun_served_heard (I : Nat) (as : List RAct) : ∀ (g : RGhost), Served g → Heard g →
+    Served (grun I g as) ∧ Heard (grun I g as) := by
+  induction as with
+  | nil => intro g h1 h2; exact ⟨h1, h2⟩
+  | cons a t ih => intro g h1 h2; exact ih _ (gstep_served I g a h1) (gstep_heard I g a h1 h2)
+
+/-- no caller of refreshNow() is handed the result of a refresh that started before its call -/
+theorem heard_early_nil (g : RGhost) (hh : Heard g) : g.early = [] := by
+  unfold RGhost.early
+  rw [List.map_eq_nil_iff, List.filter_eq_nil_iff]
+  intro e he
+  have := (hh.2.2.1 e he).2
+  simp only [decide_eq_true_eq]; omega
+
+/-- in a quiet state every caller of refreshNow() has its answer -/
+theorem heard_unanswered_nil (g : RGhost) (hs : Served g) (hh : Heard g) (hq : g.d.quiet = true) : g.unanswered = [] := by
+  have harm := quiet_not_armed _ hq
+  have hidle : g.d.phase = .idle := by
+    unfold RDeb.quiet at hq
+    simp only [Bool.and_eq_true, beq_iff_eq] at hq
+    exact hq.2
+  have hbc : g.d.bc = false := by
+    cases hb : g.d.bc with
+    | false => rfl
+    | true =>
+      rcases hs.2 hb with h | h
+      · simp [RDeb.armed, h] at harm
+      · rw [hidle] at h; exact absurd h (by decide)
+  have hw : g.waiting = [] := by
+    by_cases h : g.waiting = []
+    · exact h
+    · have := hh.2.2.2.1 h; rw [hbc] at this; exact absurd this (by decide)
+  have hc : g.cur = [] := by
+    by_cases h : g.cur = []
+    · exact h
+    · have := hh.2.2.2.2 h; rw [hidle] at this; exact absurd this (by decide)
+  simp [RGhost.unanswered, hw, hc]
+
+theorem drun_served_heard (I : Nat) (ops : List DOp) : ∀ (g : RGhost), Served g → Heard g →
+    Served (drun I g ops) ∧ Heard (drun I g ops) := by
+  induction ops with
+  | nil => intro g h1 h2; exact ⟨h1, h2⟩
+  | cons a t ih =>
+    intro g h1 h2
+    have := grun_served_heard I (dsched I g.d a) g h1 h2
+    exact ih _ this.1 this.2
 
 end C16
